@@ -125,6 +125,17 @@ def run(ctx):
             if a2 != want:
                 viol.append({"input_hex": t.hex(), "input": t.decode("latin-1"), "history_hex": [orig.hex()],
                              "what": "extension %r removed from require, parsed by a Parser that had just parsed the complete script: expected %r, got %r" % (e, want, a2[:160])})
+            # two Parser objects alive at once: the one created FIRST parses the script without the require after the one
+            # created second has accepted the complete script (and the other way round)
+            for first_gets_full in (False, True):
+                older, younger = Parser(), Parser()
+                full_p, cut_p = (older, younger) if first_gets_full else (younger, older)
+                full_p.parse(orig)
+                a3 = pyref.parse_answer(t, parser=cut_p)
+                if a3 != want:
+                    viol.append({"input_hex": t.hex(), "input": t.decode("latin-1"), "history_hex": [orig.hex()],
+                                 "what": "extension %r removed from require; two Parser objects alive, the %s one had accepted the complete script: expected %r, got %r" % (
+                                     e, "older" if first_gets_full else "younger", want, a3[:160])})
     fresh, known = split_known("C07", viol, lambda f, v: False)
     res = std_result(rec, info, fresh, known, RULE, {"removal": {"pairs": len(cases)}, "accepted_with_extension_use": nuse}, diffs=diffs)
     res["evaluations"] += len(cases)
